@@ -60,6 +60,13 @@ CHECKS.update({
   ref="DESIGN.md section 5 C15"),
 })
 
+CHECKS.update({
+ "C16": dict(technique="Coq proof: generated __getitem__ of the three classes = the same struct-of-arrays selection of every field (weights included, evidence carried); refinement of any select/pickle/dict operation sequence to one selection of the plain list-of-rows reference; partition/concatenate restores every field; random op sequences on real objects compared exactly and through the model (vm_compute)",
+  text="Theorems: (bridge) the regenerated __getitem__ of BaseSamples/Samples/SMCSamples returns select idx of x, every log-density, log_w and weights, and carries beta/evidence; row j of a selection is row idx_j of the source in all fields at once for index arrays, masks and slices; concatenating the pieces [0,k)++[k,n) restores all per-sample fields; any finite sequence of select/pickle/dict operations equals ONE selection of the source rows (induction over the op list). Pickle/dict are the identity in the model - their tie is the differential check on real pickles/dicts in three namespaces and two widths.",
+  note="Trusted: Coq kernel; tools/translate.py (symbolic execution of __getitem__, with Samples.__post_init__ summarised as compute_weights); numpy/torch/jax indexing semantics as modelled by Lib/Soa.v (masks, slices); pickle and dict round trips are modelled as the identity and only differentially tested.",
+  ref="DESIGN.md section 5 C16"),
+})
+
 PENDING_REASON = "check not built yet in this round (planned: DESIGN.md section 5); no claim is made"
 
 
